@@ -91,6 +91,10 @@ func gen(tier string, seed int64) []mon.Case {
 		hs := hs
 		cs = append(cs, mon.MkCase(fmt.Sprintf("c02/hash/%02d", k), Desc{Kind: "drv", Drv: &hs}))
 	}
+	for k, rs := range ReqOptSessions() {
+		rs := rs
+		cs = append(cs, mon.MkCase(fmt.Sprintf("c02/reqopts/%02d", k), Desc{Kind: "drv", Drv: &rs}))
+	}
 	for k, es := range EchoWalkSessions() {
 		es := es
 		cs = append(cs, mon.MkCase(fmt.Sprintf("c02/echowalk/%02d", k), Desc{Kind: "drv", Drv: &es}))
@@ -167,6 +171,8 @@ func init() {
 			"Driver level: real netconf.Driver over devsim.Conn + ncsim server, 1.0 and 1.1, Get/RPC/GetConfig, all segmentation policies plus forced read boundaries inside chunk headers, " +
 			"end markers and delimiters and between ]]>]]> and the LF that follows it; no read carries bytes of two server messages. Dedicated sub-families with placed read boundaries and controls: " +
 			"'bigbuf' (5-10 replies of 64-300 KiB per session, one huge chunk / 4 KiB chunks / PRNG chunkings, each followed at once by a notification or an unsolicited old-id reply, read delay 0/50/250 us), " +
+			"'reqopts' (full factorial exclude-header x force-self-closing-tags x preferred-version x version x echo off/marked/nomark/held; PRNG sessions draw the same options), " +
+			"'errforms' (every rpc-error opening-tag form x prefix x closing form, decoys; 1.0 and 1.1 in 1/7/all-byte chunks), " +
 			"'echowalk' (echoing server, no mark between echo and reply, whitespace-rich reply sent right after the request's last write; the read that completes the echo ends after k bytes of the framed reply, for every k, 1.0 and 1.1), " +
 			"'hash' (1.1 data lines / chunks starting with or equal to '##') and 'decl' (1.0, LF after the delimiter in a read of its own, next reply with declaration); fixed witness inputs. " +
 			"Non-trivial = (enum/mutation batch) the reference accepted at least one and rejected at least one input; (legal batch) at least one multi-chunk frame; " +
@@ -180,7 +186,7 @@ func init() {
 			"tolerant reference (trusted base, ref.go ~70 lines) defines 'malformed' for arbitrary bytes: leading whitespace skipped; ZERO or more LFs before each '#' (loosened from RFC 6242's exactly one: " +
 				"`#1\\nx##` and `#1\\nx#1\\ny\\n##` are accepted, the data returned is exactly the chunk data); size = 1-10 decimal digits, > 0, no sign, leading zeros tolerated; all chunk data present; " +
 				"'##' required, bytes after it ignored; zero chunks tolerated (`##` alone decodes to the empty result, not failed)",
-			"'carries an rpc-error' = the payload contains <rpc-error>, <rpc-errors> or <nc:rpc-error>",
+			"'carries an rpc-error': for payloads that are well-formed XML (a third of all payloads; rpc-error elements with attributes, namespace declarations, prefixes, white space in tags, 0-3 per reply) an encoding/xml tokenizer decides (some element's local name is rpc-error); the PRNG text payloads are not well-formed, for them the exact spellings <rpc-error>, <rpc-errors>, <nc:rpc-error> decide",
 			"'bigbuf' replies are a pure function of (big_seed, big_len, chunk_plan, message-id, version) in the descriptor, not spelled out",
 			"decoder-level legal/mutation batches are a pure function of the (seed, n) in the descriptor; failing inputs are written out in full in the replay file",
 		},
